@@ -200,6 +200,10 @@ type fixture struct {
 	fss      *raft.FileSnapshotStore
 	// called after FSM.Snapshot() returned and before Persist() runs
 	betweenSnapshotAndPersist func()
+	// sinkFailCall >= 0 (set before snapshot with failAfter >= 0): fail that Write call
+	sinkFailCall       int
+	sinkFailTransient  bool
+	sinkErrorSwallowed bool
 }
 
 func newFixture(dir string) *fixture {
@@ -223,7 +227,7 @@ func newFixture(dir string) *fixture {
 	if err != nil {
 		panic(err)
 	}
-	f := &fixture{dir: dir, logstore: logstore, fss: fss}
+	f := &fixture{dir: dir, logstore: logstore, fss: fss, sinkFailCall: -1}
 	f.fsm = f.newFSM()
 	return f
 }
@@ -249,17 +253,34 @@ type failingSink struct {
 	raft.SnapshotSink
 	limit   int
 	written int
+	// failCall >= 0: the Write call with this number fails instead of the one that
+	// crosses limit; transient: only that one call fails (a full disk that got
+	// room again), the following ones reach the file
+	failCall  int
+	transient bool
+	calls     int
+	failed    bool
 }
 
 var errSinkFull = errors.New("injected: snapshot sink write failed")
 
 func (s *failingSink) Write(p []byte) (int, error) {
+	call := s.calls
+	s.calls++
+	if s.failCall >= 0 {
+		if call == s.failCall || (s.failed && !s.transient) {
+			s.failed = true
+			return 0, errSinkFull
+		}
+		return s.SnapshotSink.Write(p)
+	}
 	if s.written+len(p) > s.limit {
 		n := s.limit - s.written
 		if n > 0 {
 			s.SnapshotSink.Write(p[:n])
 		}
 		s.written = s.limit
+		s.failed = true
 		return n, errSinkFull
 	}
 	s.written += len(p)
@@ -284,13 +305,24 @@ func (f *fixture) snapshot(index uint64, compactionStart int64, failAfter int) (
 		return rs, false, fmt.Errorf("fss.Create: %v", err)
 	}
 	var w raft.SnapshotSink = sink
+	var fs *failingSink
+	f.sinkErrorSwallowed = false
 	if failAfter >= 0 {
-		w = &failingSink{SnapshotSink: sink, limit: failAfter}
+		fs = &failingSink{SnapshotSink: sink, limit: failAfter, failCall: -1}
+		if f.sinkFailCall >= 0 {
+			fs.failCall, fs.transient = f.sinkFailCall, f.sinkFailTransient
+		}
+		w = fs
 	}
 	if err := s.Persist(w); err != nil {
 		sink.Cancel()
 		s.Release()
 		return rs, false, nil
+	}
+	if fs != nil && fs.failed {
+		// a write of this snapshot failed, yet Persist reports success: raft would finalize
+		// the file and truncate its log behind it
+		f.sinkErrorSwallowed = true
 	}
 	if err := sink.Close(); err != nil {
 		return rs, false, err
